@@ -38,6 +38,11 @@ def _prepare(view, version):
     if version == 2.0:
         for k in PDA_KEYS:
             hyd.pop(k, None)
+        # the 2.0 format has no overflow column in [TANKS] (nor PDA options): what that format cannot carry is outside the statement
+        nodes_ = v.get("nodes", {})
+        for n_ in (nodes_.values() if isinstance(nodes_, dict) else nodes_):
+            if isinstance(n_, dict):
+                n_.pop("overflow", None)
     # MINIMUM / REQUIRED PRESSURE are written with two decimals (psi or m): compare at that precision
     for k in ("minimum_pressure", "required_pressure"):
         if isinstance(hyd.get(k), (int, float)):
